@@ -166,16 +166,19 @@ def extends_across_variants(tag):
                         'what': f'a child behaves differently when its parent is the variant "{vname}": {str(res)[:160]} '
                                 f'vs {str(results["plain parent"])[:160]} for a plainly compiled parent'})
     # entry points of rules, classes and classes with parameters, in every variant
-    text = 'start = Pair(Name, Int) // ";"\nclass Pair(a, b) { first: a; second: "&" >> b }\nName = /[a-z]+/\nInt = /[0-9]+/ |> `int`\nclass Tag { name: Name }\n'
+    text = 'start = Pair(Name, Int) // ";"\nclass Pair(a, b) { first: a; second: "&" >> b }\nName = /[a-z]+/\nInt = /[0-9]+/ |> `int`\nclass Tag { name: Name }\nclass Rep(n) { xs: "a"{n}; rest: Name? }\n'
     per_variant = {}
     for vname, vtext, kw in variants_of(text, f'{tag}_entry'):
         try:
             mod, _ = realrun.compile_grammar(vtext, **kw)
             calls = [('Name', lambda m: m.Name.parse), ('Tag', lambda m: m.Tag.parse), ('Int', lambda m: m.Int.parse),
-                     ('Pair(Name, Int)', lambda m: m.Pair.parse(m.Name, m.Int)), ('Pair("x", "y")', lambda m: m.Pair.parse('x', 'y'))]
+                     ('Pair(Name, Int)', lambda m: m.Pair.parse(m.Name, m.Int)), ('Pair("x", "y")', lambda m: m.Pair.parse('x', 'y')),
+                     # a class with parameters as entry point: value arguments (public), implementation functions as parser arguments
+                     ('Rep(2)', lambda m: m.Rep.parse(2)), ('Rep(n=1)', lambda m: m.Rep.parse(n=1)),
+                     ('Pair(_try_Name, _try_Int)', lambda m: m.Pair.parse(m._try_Name, m._try_Int))]
             res = []
             for cname, get in calls:
-                for t in ('ab&12', 'ab', 'x&y', '12', ''):
+                for t in ('ab&12', 'ab', 'x&y', '12', '', 'aab', 'a'):
                     try:
                         res.append((cname, t, realrun.run_real_api(get(mod), t, 0, True)[0]))
                     except Exception as exc:       # noqa: BLE001
